@@ -279,3 +279,62 @@ class ResolveFilePath:
 class IsIgnoredPath:
     def value(file_path, ignore_patterns):
         return any(ignored in file_path for ignored in ignore_patterns)
+
+
+# ================================================================== literal-text conversions: ValueError is contained
+# Orchestrator._safe_check_rule re-raises ValueError and its subclasses (proved above), so a ValueError escaping from a
+# rule's own string-to-number conversion is NOT contained by the orchestrator: the run aborts (exit 2) or, in a worker,
+# the file's analysis is dropped. The functions that convert SOURCE TEXT to numbers must therefore contain it themselves.
+# These are view-tagged contracts (`~containment`): the functional contracts of the same functions (what value a literal
+# denotes -- C02, trusted string parsing) are in c02_magic_numbers.py / c03; here only the raise set is claimed, from the
+# body: int(text, base) / float(text) may raise ValueError for any text (validity of a literal is uninterpreted).
+from contracts._nodes import TSNode  # noqa: E402
+from contracts import c01_ts_base, c17_rust_context, c02_magic_numbers  # noqa: E402,F401  (callee contracts: extract_node_text of
+#                                                       the base analyzers, RustMagicNumberAnalyzer._strip_type_suffix)
+
+MN_TS = "src/linters/magic_numbers/typescript_analyzer.py::TypeScriptMagicNumberAnalyzer."
+MN_RS = "src/linters/magic_numbers/rust_analyzer.py::RustMagicNumberAnalyzer."
+
+
+@contract(MN_TS + "_extract_numeric_value~containment", props=["C11"],
+          types=dict(self=Rec("TypeScriptMagicNumberAnalyzer", cls=MN_TS[:-1]), node=TSNode), raises=[])
+class TsExtractNumericValueContainment:
+    """Any token text -- BigInt `10n`, legacy octal `0755`, `08`, a malformed float -- yields a value or None, never an
+    exception."""
+    def requires(self, node):
+        return node is not None
+
+    def ensures_total(self, node):
+        return True
+
+
+@contract(MN_RS + "_strip_type_suffix~containment", props=["C11"],
+          types=dict(self=Rec("RustMagicNumberAnalyzer", cls=MN_RS[:-1]), text=Str, suffix=Str), returns=Str, raises=[])
+class RsStripTypeSuffixContainment:
+    def ensures_total(text, result):
+        return True
+
+
+@contract(MN_RS + "_extract_numeric_value~containment", props=["C11"],
+          types=dict(self=Rec("RustMagicNumberAnalyzer", cls=MN_RS[:-1]), node=TSNode), raises=[])
+class RsExtractNumericValueContainment:
+    def requires(self, node):
+        return node is not None
+
+    def ensures_total(self, node):
+        return True
+
+
+@contract("src/linters/dry/violation_filter.py::ViolationFilter._extract_line_count~containment", props=["C11"],
+          types=dict(message=Str, start=Int, end=Int), returns=Int, raises=[])
+class FilterExtractLineCountContainment:
+    """message.index(...) and int(...) on the message text: ValueError / IndexError -> the documented fallback."""
+    def ensures_total(message, result):
+        return True
+
+
+@contract("src/linters/dry/violation_generator.py::ViolationGenerator._extract_line_count~containment", props=["C11"],
+          types=dict(message=Str, start=Int, end=Int), returns=Int, raises=[])
+class GeneratorExtractLineCountContainment:
+    def ensures_total(message, result):
+        return True
